@@ -79,15 +79,22 @@ func TestC06(t *testing.T) {
 		// loss reports also for links never reported established (loss overtakes establish)
 		{"explicit-events/loss-before-establish", &tch.Config{Links: links, Lookups: lookups[:1], StaticLookups: true, LoseNeverEstablished: true}, 6, 10},
 	}
+	unconfirmed := 0
 	for _, sc := range scens {
 		d := sc.dq
 		if !run.Quick() {
 			d = sc.dt
 		}
 		res := hist.BFS(t, &hist.Config{Name: "controller/" + sc.name, MaxDepth: d, Deadline: run.Deadline(), New: mk(sc.cfg)})
+		// every violating history is replayed 4 more times before it is reported
+		if n := tch.Confirm(t, mk(sc.cfg), res, 4); n > 0 {
+			res.Exhaustive = false
+			unconfirmed += n
+		}
 		agg.AddHist(res)
 	}
 	agg.Finish(false)
+	run.Cov["violations_dropped_as_not_reproducible"] = unconfirmed
 	run.Assumptions = append(run.Assumptions,
 		"E3: event orders are explored, not interleavings inside one event's settling (callbacks are delivered one at a time, each followed by quiescence); the concurrent-callback seam (E2) and the QUIC-backed seam B are not covered",
 		"states are de-duplicated on the dump of model, link tables, GetPeerLinks, lookup values, Close flags and live directive instances",
